@@ -486,7 +486,7 @@ Theorem rename_same_message : forall p v sl tl sfx out v', bytes_ok p -> parse p
   exists qls qt lxa lxn lxr qls' L' lxa' lxn' lxr',
     reading p qls qt lxa lxn lxr /\ renamed sl tl sfx qls qls' /\ Forall2 (ren_rec sl tl sfx) (lxa ++ lxn ++ lxr) L' /\
     reading out qls' qt lxa' lxn' lxr' /\ Forall2 ci_rec L' (lxa' ++ lxn' ++ lxr') /\
-    length lxa' = length lxa /\ length lxn' = length lxn /\ length lxr' = length lxr.
+    length lxa' = length lxa /\ length lxn' = length lxn /\ length lxr' = length lxr /\ firstn 12 out = firstn 12 p.
 Proof.
   intros p v sl tl sfx out v' Hb Hp Hsl Htl Hsl0 Htl0 Htb Hls Hlt Hren Hp'.
   destruct (rename_content p v sl tl sfx Hb Hp Hsl Htl Hsl0 Htl0 Htb Hls Hlt) as (qls & qt & lxa & lxn & lxr & qe & R & Hcn & Hres).
@@ -534,7 +534,9 @@ Proof.
   { intros off site Ho. unfold be16_at, byte_at. rewrite !Hh by lia. reflexivity. }
   unfold hdr_ancount in Han, Han'. unfold hdr_nscount in Hns, Hns'. unfold hdr_arcount in Har, Har'.
   rewrite Hcnt in Han', Hns', Har' by lia. rewrite Han in Han'. rewrite Hns in Hns'. rewrite Har in Har'.
-  injection Han' as La. injection Hns' as Ln. injection Har' as Lr. lia.
+  injection Han' as La. injection Hns' as Ln. injection Har' as Lr.
+  split; [lia|]. split; [lia|]. split; [lia|].
+  rewrite Eout, <- app_assoc. rewrite firstn_app, L12, Nat.sub_diag, firstn_O, app_nil_r. apply firstn_all2. lia.
 Qed.
 
 (** the operation on the packet object, on a packet as the parser returned it: success means the renamed packet was accepted *)
@@ -546,7 +548,7 @@ Theorem rename_effect : forall p v it sl tl sfx s', bytes_ok p -> parse p = Ok v
   exists qls qt lxa lxn lxr qls' L' lxa' lxn' lxr',
     reading p qls qt lxa lxn lxr /\ renamed sl tl sfx qls qls' /\ Forall2 (ren_rec sl tl sfx) (lxa ++ lxn ++ lxr) L' /\
     reading (pp_packet (fst s')) qls' qt lxa' lxn' lxr' /\ Forall2 ci_rec L' (lxa' ++ lxn' ++ lxr') /\
-    length lxa' = length lxa /\ length lxn' = length lxn /\ length lxr' = length lxr.
+    length lxa' = length lxa /\ length lxn' = length lxn /\ length lxr' = length lxr /\ firstn 12 (pp_packet (fst s')) = firstn 12 p.
 Proof.
   intros p v it sl tl sfx s' Hb Hp Hsl Htl Hsl0 Htl0 Htb Hls Hlt H.
   unfold m_rename, cbind, getv, clift, putv in H. cbn [fst snd] in H.
@@ -586,7 +588,7 @@ Proof.
   rewrite Er in Hres. destruct Hres as [[Hc _]|(out0 & _ & _ & _ & Hc0 & Hbo & _)]; [discriminate|]. injection Hc0 as <-.
   split; [exact Hbo|].
   destruct (rename_same_message p v sl tl sfx r f Hb Hp Hsl Htl Hsl0 Htl0 Htb Hls Hlt Er Ef)
-    as (qls & qt & lxa & lxn & lxr & qls' & L' & lxa' & lxn' & lxr' & R & _ & HF & R' & HC & La & Ln & Lr).
+    as (qls & qt & lxa & lxn & lxr & qls' & L' & lxa' & lxn' & lxr' & R & _ & HF & R' & HC & La & Ln & Lr & _).
   destruct (parse_shape r f Hbo Ef) as (sq & san & sns & sar & an & ns & ar & F).
   destruct (summary_same_eq v f Es) as (E1 & E2 & E3 & E4).
   (* the advertised payload size *)
@@ -620,4 +622,113 @@ Proof.
   cbn [pp_packet pp_maybe_compressed pp_cached pp_edns_count pp_ext_rcode pp_edns_version pp_ext_flags pp_max_payload
        pp_offset_question pp_offset_answers pp_offset_nameservers pp_offset_additional pp_offset_edns] in *.
   subst. exact Ef.
+Qed.
+
+(** ** The consistency assertion of the rename wrapper never fires on a parsed packet: the EDNS summary of the renamed packet is
+    the one the object held (the OPT record is carried over byte for byte), so [rename_with_raw_names] returns an error or succeeds *)
+Lemma find_pair_rel {T} (R : T -> T -> Prop) (key : T -> rec_view) : forall l1 l2, Forall2 R l1 l2 ->
+  (forall a b, R a b -> is_opt (key a) = is_opt (key b)) ->
+  match find (fun x => is_opt (key x)) l1, find (fun x => is_opt (key x)) l2 with
+  | Some a, Some b => R a b
+  | None, None => True
+  | _, _ => False
+  end.
+Proof.
+  induction 1 as [|a b l1 l2 Hab _ IH]; intros HR; cbn [find]; [exact I|].
+  rewrite <- (HR a b Hab). destruct (is_opt (key a)); [exact Hab|exact (IH HR)].
+Qed.
+
+Lemma find_map_fst (l : list (rec_view * rd_view)) :
+  find is_opt (map fst l) = match find (fun x => is_opt (fst x)) l with Some rx => Some (fst rx) | None => None end.
+Proof. induction l as [|[r x] l IH]; cbn [map find fst]; [reflexivity|]. destruct (is_opt r); [reflexivity|exact IH]. Qed.
+
+Lemma ttl_parts rc ver xf rc' ver' xf' : (rc < 256 -> ver < 256 -> xf < 65536 -> rc' < 256 -> ver' < 256 -> xf' < 65536 ->
+  rc * 16777216 + ver * 65536 + xf = rc' * 16777216 + ver' * 65536 + xf' -> rc = rc' /\ ver = ver' /\ xf = xf')%N.
+Proof. intros. lia. Qed.
+
+Theorem rename_summary_kept : forall p v sl tl sfx out f, bytes_ok p -> parse p = Ok v ->
+  Forall lab sl -> Forall lab tl -> sl <> [] -> tl <> [] -> bytes_ok (wire_of_labels tl) ->
+  length (wire_of_labels sl) <= 255 -> length (wire_of_labels tl) <= 255 ->
+  renamer_rename v (wire_of_labels tl) (wire_of_labels sl) sfx = Ok out -> parse out = Ok f ->
+  edns_summary_same v f = true.
+Proof.
+  intros p v sl tl sfx r f Hb Hp Hsl Htl Hsl0 Htl0 Htb Hls Hlt Er Ef.
+  destruct (rename_content p v sl tl sfx Hb Hp Hsl Htl Hsl0 Htl0 Htb Hls Hlt) as (qls0 & qt0 & a0 & n0 & r0 & qe0 & _ & _ & Hres).
+  rewrite Er in Hres. destruct Hres as [[Hc _]|(out0 & _ & _ & _ & Hc0 & Hbo & _)]; [discriminate|]. injection Hc0 as <-.
+  destruct (rename_same_message p v sl tl sfx r f Hb Hp Hsl Htl Hsl0 Htl0 Htb Hls Hlt Er Ef)
+    as (qls & qt & lxa & lxn & lxr & qls' & L' & lxa' & lxn' & lxr' & R & _ & HF & R' & HC & La & Ln & Lr & _).
+  destruct (parse_summary p v Hb Hp) as (an1 & ns1 & ar1 & qe1 & e11 & e21 & la1 & ln1 & lr1 & _ & (ql1 & Hq1) & Ha1 & Hn1 & Hr1 & Ra1 & Lla1 & Rn1 & Lln1 & Rr1 & Llr1 & S1).
+  destruct (parse_summary r f Hbo Ef) as (an2 & ns2 & ar2 & qe2 & e12 & e22 & la2 & ln2 & lr2 & _ & (ql2 & Hq2) & Ha2 & Hn2 & Hr2 & Ra2 & Lla2 & Rn2 & Lln2 & Rr2 & Llr2 & S2).
+  pose proof R as [(qe & e1 & e2 & Hcn & _ & _ & _ & Ra & Rn & Rr) Hx Han Hns Har].
+  pose proof R' as [(qe' & e1' & e2' & Hcn' & _ & _ & _ & Ra' & Rn' & Rr') Hx' Han' Hns' Har'].
+  destruct (cname_l_fun _ _ _ _ _ _ Hcn Hq1) as [_ <-]. destruct (cname_l_fun _ _ _ _ _ _ Hcn' Hq2) as [_ <-].
+  rewrite Ha1 in Han. rewrite Hn1 in Hns. rewrite Hr1 in Har. rewrite Ha2 in Han'. rewrite Hn2 in Hns'. rewrite Hr2 in Har'.
+  injection Han as ->. injection Hns as ->. injection Har as ->. injection Han' as ->. injection Hns' as ->. injection Har' as ->.
+  rewrite Nat2N.id in *.
+  destruct (records_at_fun p _ _ _ Ra1 _ _ Ra ltac:(rewrite map_length; lia)) as [Xa Ya]. subst la1 e11.
+  destruct (records_at_fun p _ _ _ Rn1 _ _ Rn ltac:(rewrite map_length; lia)) as [Xn Yn]. subst ln1 e21.
+  destruct (records_at_fun p _ _ _ Rr1 _ _ Rr ltac:(rewrite map_length; lia)) as [Xr _]. subst lr1.
+  destruct (records_at_fun r _ _ _ Ra2 _ _ Ra' ltac:(rewrite map_length; lia)) as [Xa' Ya']. subst la2 e12.
+  destruct (records_at_fun r _ _ _ Rn2 _ _ Rn' ltac:(rewrite map_length; lia)) as [Xn' Yn']. subst ln2 e22.
+  destruct (records_at_fun r _ _ _ Rr2 _ _ Rr' ltac:(rewrite map_length; lia)) as [Xr' _]. subst lr2.
+  rewrite <- !map_app in S1, S2. rewrite find_map_fst in S1, S2.
+  pose proof (find_pair_rel (ren_rec sl tl sfx) fst _ _ HF
+                ltac:(intros [ra xa] [rb xb] [(ls' & _ & E) _]; cbn [fst snd] in *; subst rb; reflexivity)) as P1.
+  pose proof (find_pair_rel ci_rec fst _ _ HC
+                ltac:(intros [ra xa] [rb xb] (_ & Et & _); cbn [fst snd] in *; unfold is_opt; rewrite Et; reflexivity)) as P2.
+  unfold edns_summary_same.
+  destruct (find (fun x => is_opt (fst x)) (lxa ++ lxn ++ lxr)) as [[ra xa]|] eqn:F1;
+    destruct (find (fun x => is_opt (fst x)) L') as [[rb xb]|] eqn:F2; try contradiction;
+    destruct (find (fun x => is_opt (fst x)) (lxa' ++ lxn' ++ lxr')) as [[rc xc]|] eqn:F3; try contradiction; cbn [fst summary_of] in S1, S2.
+  - (* an OPT record on both sides: the same class, TTL and data *)
+    destruct (find_some _ _ F1) as [In1 O1]. destruct (find_some _ _ F3) as [In3 O3]. cbn [fst] in O1, O3.
+    destruct P1 as [(ls' & _ & Eb) Hrd1]. destruct P2 as (_ & Et & Ecl & Ettl & Hrd2). cbn [fst snd] in *. subst rb.
+    cbn [rv_with_labels rv_type rv_class rv_ttl] in Et, Ecl, Ettl.
+    destruct (reading_record_in _ _ _ _ _ _ R ra xa In1) as (Hxa & ea & Hra). destruct (reading_record_in _ _ _ _ _ _ R' rc xc In3) as (Hxc & ec & Hrc).
+    assert (Tya : rv_type ra = TYPE_OPT) by (unfold is_opt in O1; lia).
+    assert (Tyc : rv_type rc = TYPE_OPT) by (rewrite Et; exact Tya).
+    (* the data of both is opaque and equal *)
+    pose proof (shape_of_rdata _ _ _ _ Hra Hxa) as Sa. pose proof (shape_of_rdata _ _ _ _ Hrc Hxc) as Sc.
+    assert (Exa : xa = RdRaw (rdata_of p ra)).
+    { unfold rdata_at in Hxa. cbv zeta in Hxa. destruct xa as [l|pf l|l1 l2 t|b]; cbn [rd_shape] in Sa.
+      - rewrite Tya in Sa. cbv in Sa. discriminate.
+      - destruct Sa as (_ & Sa & _). rewrite Tya in Sa. cbv in Sa. discriminate.
+      - destruct Sa as (_ & Sa & _). rewrite Tya in Sa. cbv in Sa. discriminate.
+      - destruct Hxa as (_ & _ & _ & ->). reflexivity. }
+    assert (Exc : xc = RdRaw (rdata_of r rc)).
+    { unfold rdata_at in Hxc. cbv zeta in Hxc. destruct xc as [l|pf l|l1 l2 t|b]; cbn [rd_shape] in Sc.
+      - rewrite Tyc in Sc. cbv in Sc. discriminate.
+      - destruct Sc as (_ & Sc & _). rewrite Tyc in Sc. cbv in Sc. discriminate.
+      - destruct Sc as (_ & Sc & _). rewrite Tyc in Sc. cbv in Sc. discriminate.
+      - destruct Hxc as (_ & _ & _ & ->). reflexivity. }
+    subst xa xc. destruct xb as [l|pf l|l1 l2 t|b]; cbn [ren_rd rd_ci] in Hrd1, Hrd2; try contradiction. subst b.
+    pose proof (record_at_end _ _ _ Hra) as (Hea & _ & Hla). pose proof (record_at_end _ _ _ Hrc) as (Hec & _ & Hlc). unfold rv_end in Hea, Hec.
+    assert (Lrd : rv_rdlen rc = rv_rdlen ra).
+    { apply (f_equal (@length _)) in Hrd2. unfold rdata_of in Hrd2. rewrite !firstn_length, !skipn_length in Hrd2. lia. }
+    destruct S1 as (_ & _ & Mp1 & (n1 & T1 & C1) & rc1 & ver1 & xf1 & A1 & A2 & A3 & B1 & B2 & B3 & Ttl1).
+    destruct S2 as (_ & _ & Mp2 & (n2 & T2 & C2) & rc2 & ver2 & xf2 & A1' & A2' & A3' & B1' & B2' & B3' & Ttl2).
+    rewrite Ettl, Ttl1 in Ttl2. destruct (ttl_parts _ _ _ _ _ _ B1 B2 B3 B1' B2' B3' Ttl2) as (<- & <- & <-).
+    assert (En : n1 = n2).
+    { pose proof (opts_tile_move p r _ _ _ T1 (rv_name_end rc + 10)) as Hm.
+      replace (rv_name_end ra + 10 + rv_rdlen ra - (rv_name_end ra + 10)) with (rv_rdlen rc) in Hm by lia.
+      apply (opts_tile_fun r _ _ _ (Hm ltac:(intros j Hj; unfold rdata_of in Hrd2;
+               rewrite <- (nth_firstn_skipn r (rv_name_end rc + 10) (rv_rdlen rc) j ltac:(lia)), <- (nth_firstn_skipn p (rv_name_end ra + 10) (rv_rdlen ra) j ltac:(lia)), Hrd2; reflexivity)) _ T2). }
+    subst n2. rewrite C1, C2, A1, A2, A3, A1', A2', A3'. cbn [opt_N_eqb]. rewrite !N.eqb_refl. reflexivity.
+  - destruct S1 as (_ & -> & -> & -> & -> & _). destruct S2 as (_ & -> & -> & -> & -> & _). reflexivity.
+Qed.
+
+Theorem rename_total : forall p v it sl tl sfx, bytes_ok p -> parse p = Ok v ->
+  Forall lab sl -> Forall lab tl -> sl <> [] -> tl <> [] -> bytes_ok (wire_of_labels tl) ->
+  length (wire_of_labels sl) <= 255 -> length (wire_of_labels tl) <= 255 ->
+  (exists s', m_rename (wire_of_labels tl) (wire_of_labels sl) sfx (v, it) = (s', Ok tt)) \/
+  (exists e, m_rename (wire_of_labels tl) (wire_of_labels sl) sfx (v, it) = ((v, it), Err e)).
+Proof.
+  intros p v it sl tl sfx Hb Hp Hsl Htl Hsl0 Htl0 Htb Hls Hlt.
+  destruct (rename_content p v sl tl sfx Hb Hp Hsl Htl Hsl0 Htl0 Htb Hls Hlt) as (qls0 & qt0 & a0 & n0 & r0 & qe0 & _ & _ & Hres).
+  unfold m_rename, cbind, getv, clift, putv. cbn [fst snd].
+  destruct Hres as [[Hc _]|(out & _ & _ & _ & Hc & Hbo & _)]; rewrite Hc; [right; exists InvalidName; reflexivity|].
+  destruct (parse out) as [f| |] eqn:Ef.
+  - rewrite (rename_summary_kept p v sl tl sfx out f Hb Hp Hsl Htl Hsl0 Htl0 Htb Hls Hlt Hc Ef). cbn [negb]. left. eexists. reflexivity.
+  - right. eexists. reflexivity.
+  - exfalso. pose proof (parse_total out Hbo) as Hn. unfold nopanic, hoare in Hn. rewrite Ef in Hn. exact Hn.
 Qed.
